@@ -295,10 +295,15 @@ func c10run(c *Ctx, cx *c10env, seq []c10op, trans map[string]bool) (nontriv boo
 			m.fakeSigs = false
 			skipOutcome = true
 		case opAddStamp:
-			env.Head.AddStamp(&head.Stamp{Provider: "verif-a", Value: "A-1"})
-			if m.stamps == 0 {
-				m.stamps = 1
+			// providers of successive stamps: a simple key, a composite key that
+			// contains it, a part of that composite (distinct providers all)
+			provs := []cbc.Key{"verif-a", "verif-a+seal", "seal"}
+			pi := m.stamps
+			if pi >= len(provs) {
+				pi = len(provs) - 1
 			}
+			env.Head.AddStamp(&head.Stamp{Provider: provs[pi], Value: "A-1"})
+			m.stamps++
 			skipOutcome = true
 		case opAlterStamp:
 			for _, st := range env.Head.Stamps {
